@@ -236,6 +236,11 @@ func genC17(rec *lib.Rec, r *lib.Rng, thorough bool) {
 		if i%5 == 0 {
 			b2 := 3 + r.Intn(10)
 			u := GenVal(r, 4, &b2)
+			var us []*Val
+			nodes(u, &us)
+			for _, nd := range us {
+				nd.Cap %= 8
+			}
 			rec.Op("S", "read equal "+a+" "+segsStr(encodeRandom(r, u))+sh(), true)
 		}
 	}
